@@ -259,6 +259,11 @@ def constructMapping (DX DY : Mat) (pi : List Nat) (y0 : Nat) : Except Err (List
   | [] => .error .index                       -- `pi[0]` on an empty permutation
   | x0 :: rest => .ok (mapLoop DX DY rest [(x0, y0)] 0)
 
+/-- `min(distortion, ub_of_min_distortion)` with `none` = `np.inf` -/
+def minOpt (dist : Nat) : Option Nat → Nat
+  | none => dist
+  | some b => min dist b
+
 /-- the sampling loop of `find_ub_of_min_distortion`: `best = none` is `np.inf`.  Stops at the
     first sample whose running minimum is `≤ goal`; returns the minimum and the number of mappings
     constructed. A missing first image for a permutation that is still needed is `Err.index`. -/
@@ -270,7 +275,7 @@ def ubLoop (DX DY : Mat) (goal : Nat) : List (List Nat) → List Nat → Option 
     match constructMapping DX DY pi y0 with
     | .error e => .error e
     | .ok (_, dist) =>
-      let b := match best with | none => dist | some b => min dist b
+      let b := minOpt dist best
       if b ≤ goal then .ok (b, k + 1) else ubLoop DX DY goal pis y0s (some b) (k + 1)
 
 /-- `find_ub_of_min_distortion` (value, number of mappings constructed) -/
